@@ -4,6 +4,38 @@ C = 'flipjump/interpreter/_fjcore.c'
 RD = 'flipjump/fjm/fjm_reader.py'
 MUTANTS = [
     # ---- arming
+    M('C01', 'featured: the bit to flip is read before the IO of the op, written after it', RUN,
+      """        _handle_output(flip_address, io_device, w)
+""", """        flipped_bit = not mem.read_bit(flip_address)
+        _handle_output(flip_address, io_device, w)
+""", 'C01.ORDER', also=[(RUN, "        mem.write_bit(flip_address, not mem.read_bit(flip_address))", "        mem.write_bit(flip_address, flipped_bit)")]),
+    M('C01', 'EQ featured: the flipped bit named in a local right before the store', RUN,
+      "        mem.write_bit(flip_address, not mem.read_bit(flip_address))",
+      "        flipped_bit = not mem.read_bit(flip_address)\n        mem.write_bit(flip_address, flipped_bit)", None),
+    M('C01', 'EQ fast: flip as an in-place xor with the missing-word fallback in the handler', RUN,
+      """            try:
+                flip_word_value = memory[flip_word_address]
+            except KeyError:
+                flip_word_value = read_missing_word(flip_word_address)
+            memory[flip_word_address] = flip_word_value ^ (1 << (flip_address & bit_mask))
+""", """            flip_bit = 1 << (flip_address & bit_mask)
+            try:
+                memory[flip_word_address] ^= flip_bit
+            except KeyError:
+                memory[flip_word_address] = read_missing_word(flip_word_address) ^ flip_bit
+""", None),
+    M('C01', 'fast: in-place xor whose handler re-reads another word', RUN,
+      """            try:
+                flip_word_value = memory[flip_word_address]
+            except KeyError:
+                flip_word_value = read_missing_word(flip_word_address)
+            memory[flip_word_address] = flip_word_value ^ (1 << (flip_address & bit_mask))
+""", """            flip_bit = 1 << (flip_address & bit_mask)
+            try:
+                memory[flip_word_address] ^= flip_bit
+            except KeyError:
+                memory[flip_word_address] = read_missing_word(flip_address) ^ flip_bit
+""", 'C01.FASTMEM'),
     M('C01', 'fast: flip-target word fetched before the IO of the op (seed C01_8)', RUN,
       """                    flip_address = read_missing_word(word_address)
 
